@@ -99,6 +99,14 @@ instance : (f : Field) → (v : Value) → Decidable (Fits f v)
   | .u _, .bytes _ => isFalse (by simp [Fits])
   | .s _, .int _ => isFalse (by simp [Fits])
 
+instance decFitsAll : (fs : List Field) → (vs : List Value) → Decidable (FitsAll fs vs)
+  | [], [] => isTrue trivial
+  | _ :: fs, _ :: vs => by
+    unfold FitsAll
+    exact @instDecidableAnd _ _ _ (decFitsAll fs vs)
+  | [], _ :: _ => isFalse (by simp [FitsAll])
+  | _ :: _, [] => isFalse (by simp [FitsAll])
+
 theorem packField_length {f : Field} {v : Value} {a : Bytes} (h : packField f v = some a) :
     a.length = f.size := by
   cases f <;> cases v <;> simp only [packField, packU] at h
